@@ -15,9 +15,9 @@ CLAIMS = {
    note='Trusted: numba integer promotion (int32 op uint32 -> int64 sign-extended), CPython ast. Not decided: float rounding (the half-quantum bound follows analytically), library allocation behaviour.',
    design_ref='DESIGN.md section 4, C04'),
  'C15': dict(
-   technique='static analysis: bit-provenance domain over the 72 record bits (bijection check) + polynomial normal forms of the header/particle formulas + syntax-directed record-discipline rule',
+   technique='static analysis: bit-provenance domain over the 72 record bits (bijection check) + polynomial normal forms of the header/particle formulas + syntax-directed record-discipline rule + resolved-argument rule for the pack9 branch of read_asdf',
    text='Decides that the nibble expansion partitions the 72 bits of a record into six 12-bit fields for every byte pattern, that header records store nothing and particle records '
-        'store at the write counter which is incremented exactly once and returned, and that positions/velocities of the three axes have one consistent cell-relative polynomial form.',
+        'store at the write counter which is incremented exactly once and returned, and that positions/velocities of the three axes have one consistent cell-relative polynomial form; read_asdf keeps max(npos, nvel) rows of a pack9 read, so the particle count does not depend on which outputs were requested.',
    note='The repository has no independent description of the pack9 constants: the oracle is internal consistency plus the property statement. Float rounding not modelled.',
    design_ref='DESIGN.md section 4, C15'),
  'C05': dict(
@@ -69,15 +69,16 @@ CLAIMS = {
    note='That these conditions imply chunk independence (a history property) is a hand argument in DESIGN.md; blosc itself is not modelled.',
    design_ref='DESIGN.md section 4, C14'),
  'C16': dict(
-   technique='static analysis: key agreement between membership tests and column names, evaluation of branch conditions on the literal raw column names, must-raise and plumbing rules',
+   technique='static analysis: key agreement between membership tests and column names, constant propagation of _resolve_columns and of the column-detection block over their finite input domains (144 option combinations, 16 sets of raw columns), decoder arguments resolved through the locals of read_asdf',
    text='Decides the column-set and plumbing clauses: each column is added iff its own name is in the resolved load list (PID fields via the kwargs comprehension over what unpack_pids accepts), defaults per raw column as documented, '
         'auto-detection raises for zero or several known columns, each raw column selects exactly one decode branch which writes into the table buffers with the requested dtype and defines the truncation count; meta is the header.',
    note='Value independence from co-requested columns is C04-R6/C15-R5. asdf/astropy behaviour and file contents are not modelled.',
    design_ref='DESIGN.md section 4, C16'),
  'C18': dict(
-   technique='static analysis: floor-division normal forms of the code decomposition, extraction and comparison of the 12-cap signed-permutation table, structural orthogonality / Levi-Civita rules',
-   text='Decides the algebraic structure of _unpack_euler16 for all 65340 codes: cap/cell/azimuth decomposition with A=45, T=11; every cap maps the unit vector to a signed permutation with the dominant component on axis cap//4 and the 12 permutations are distinct; '
-        'minor is perpendicular to major by construction (third component solved through the dominant one); middle = minor x major; all normalised.',
+   technique='static analysis: floor-division normal forms of the code decomposition; per-cap abstract interpretation of the vectorised decoder over exact Laurent polynomials with sqrt / reciprocal / row-norm / trig symbols and a polynomial-identity checker modulo their defining relations; numeric-kind rule for unsigned wraparound',
+   text='Decides the algebraic structure of _unpack_euler16 for all 65340 codes: cap/cell/azimuth decomposition with A=45, T=11; for each of the 12 caps the major axis is identically a signed permutation of the unit vector of the documented inverse cell map and the 12 permutations are distinct; '
+        'minor . major = 0 identically, every division in the construction is by a strictly positive quantity, minor carries (cos az, sin az) with az = (iaz + 1/2) pi / 45; '
+        'middle = minor x major identically; minor and middle normalised; integer subtractions on the (possibly unsigned) code cannot wrap.',
    note='Not decided: distinctness within a cap (injectivity of the real-valued cell map) and the 4-degree angular coverage, which are numerical.',
    design_ref='DESIGN.md section 4, C18'),
  'C20': dict(
@@ -105,10 +106,10 @@ CLAIMS = {
    note='Not decided: the occupation formulas against the literature, slice end-points at exact equality, light-cone RSD geometry, velocity statistics.',
    design_ref='DESIGN.md section 4, C09'),
  'C10': dict(
-   technique='static analysis: ownership classification of stores under prange, block-table / prefix-sum idiom rules, count-fill agreement (exactly-once increments per branch), purity (call and thread-id reachability), index-map agreement of the serial and parallel concatenate paths',
+   technique='static analysis: ownership classification of stores under prange, block-table / prefix-sum idiom rules, count-fill agreement (exactly-once increments per branch), purity (call and thread-id reachability), copy-map analysis (intervals and shifts as linear forms) of the serial and parallel concatenate paths with a block-count obligation',
    text='Decides thread-count independence structurally: nothing shared under prange; count and fill pass iterate identical blocks from rint(linspace(0,H,T+1)) (tiles [0,H) for every T incl. T>H and H=0); cursors are prefix sums of the per-thread counts; each branch increments its counter / cursor exactly once; '
-        'no randomness, time or thread id in row values; fast_concatenate has one index map on both paths, tiling block tables and a total dispatch of thread ids.',
-   note='Assumed: floor(T*N1/(N1+N2)) <= T-1 for N2>0 (real arithmetic). Bitwise float equality under fastmath is argued from purity (no cross-row arithmetic), not separately decided.',
+        'no randomness, time or thread id in row values; fast_concatenate copies out[0:N1] <- a1 and out[N1:N1+N2] <- a2 on both paths (any equivalent placement of the N1 offset), every block table has at least one block (the share of the first array is rounded down) and every thread id is dispatched to exactly one block.',
+   note='Lemma used: floor(T*N1/(N1+N2)) <= T-1 for N2>0 (real arithmetic; rounding up or to nearest is refuted). Bitwise float equality under fastmath is argued from purity (no cross-row arithmetic), not separately decided.',
    design_ref='DESIGN.md section 4, C10'),
  'C11': dict(
    technique='static analysis: modular array-bounds prover (syntax-directed abstract interpretation with linear-integer entailment by Fourier-Motzkin, case symbols, loop lemmas for block tables / counters / search cursors / content invariants) relative to written kernel contracts',
@@ -119,7 +120,7 @@ CLAIMS = {
  'C13': dict(
    technique='static analysis: interprocedural dependence (information-flow) analysis with shape/value separation and per-key tracking of result dictionaries; ownership classification of stores under prange',
    text='Decides only the second sentence of C13 and the schedule part of the first: neither the values nor the lengths of pos, w, pos2, w2 can reach N_mode, N_mode_poles, the k and mu range columns or the shape of any result column of calc_power (with a positive control that the power column does depend on them); '
-        'every store under prange in the kernels on that path is private, so the thread count only changes floating-point summation order.',
+        'every store under prange in the kernels on that path is private, so the thread count only changes floating-point summation order; the in-place normalisation passes visit every cell of the mesh (direct, block-table or chunked forms; a dropped remainder is refuted).',
    note='NOT decided: permutation, translation and cross=auto invariance (numerical identities of the pipeline; e.g. mis-indexed interlacing phases or transposed compensation axes are invisible to these rules). Termination-insensitive; library calls modelled conservatively.',
    design_ref='DESIGN.md section 4, C13'),
 }
